@@ -176,10 +176,19 @@ def coq_makefile():
         sh(["coq_makefile", "-f", "_CoqProject", "-o", "Makefile"], cwd=COQ)
 
 
+def ensure_extraction_dirs():
+    """model/gen/ is build output (not committed): the directories the Extract/*.v files write into must exist."""
+    import glob
+    for f in glob.glob(os.path.join(COQ, "Extract", "*.v")):
+        for rel in re.findall(r'Extraction\s+"([^"]+)"', open(f).read()):
+            os.makedirs(os.path.dirname(os.path.normpath(os.path.join(COQ, rel))), exist_ok=True)
+
+
 def coq_make(targets, timeout=1500):
     """Full .vo build of the given targets (never -vos/-vok). Returns (ok, output).
     A proof that no longer terminates in time (e.g. after a generated constant changed) counts as failed."""
     coq_makefile()
+    ensure_extraction_dirs()
     try:
         p = sh(["make", "-j%d" % NCPU] + list(targets), cwd=COQ, check=False, timeout=timeout)
     except subprocess.TimeoutExpired:
